@@ -194,7 +194,66 @@ def _c19():
                    "core::fmt), spans of re-lexed interpolation (is_expanded), stdout/stderr routing")
 
 
+EPS_STUB = ("f64::powi -> exact table for base 10, exponents +-8..13 (CBMC over-approximates powi); the table is re-checked against "
+            "the native powi on every run; the real epsilon()/inverse_epsilon()/PRECISION are executed")
+
+
+def _c07():
+    from . import engine_t
+    hs = [H("c07::c07a_fuzzy_equals_laws", "a, b: every double within 3e-11 of a centre in {0, .5, 1, -1, 2.5, 100, 255, -255}",
+            covers=("end", "fuzzy_equal_distinct", "unequal"), flags=ST),
+          H("c07::c07a_fuzzy_equals_special", "a, b: every pair of doubles (NaN / infinity laws)", covers=("end", "nan", "infs"), flags=ST),
+          H("c07::c07a_fuzzy_order_laws", "same windows: trichotomy of fuzzy <, ==, >", covers=("end", "less", "equal_but_smaller"), flags=ST),
+          H("c07::c07a_fuzzy_as_int", "every double (totality), |x| <= 1000 for the value laws", covers=("end", "near_integer", "non_integer"), flags=ST),
+          H("c07::c07a_number_predicates", "x in [-1,1], y any double: is_zero/is_positive/is_negative partition, min/max/clamp",
+            covers=("end", "fuzzy_zero", "nan_clamped"), flags=ST)]
+    return _simple(hs, ["value::number::{fuzzy_equals, fuzzy_less_than, fuzzy_less_than_or_equals, fuzzy_as_int}",
+                        "Number::{is_zero, is_positive, is_negative, min, max, clamp}"],
+                   "windows of +-3e-11 around 8 centres (every double inside), full range for the NaN/inf/totality laws",
+                   "fuzzy_round and modulo (Rust `%` on f64 is mis-modelled by CBMC's fmod), number printing (`{:.10}` float "
+                   "formatting does not finish), literal parsing, sass:math functions (libm), doubles outside the windows, "
+                   "transitivity of fuzzy equality",
+                   stubs=[EPS_STUB], pre=[engine_t.check_epsilon])
+
+
+def _c09():
+    from . import engine_t
+    CONV = ("Number::convert -> contract stub: same early returns, asserts the unit pair is in the table dumped from this build, "
+            "multiplies by the dumped factor")
+    names = {"num_num": (Q, "two numbers: magnitudes {1, 96, 0, 1.000000000001, 1.5, 144} x units {none, px, in, em}"),
+             "str_str": (Q, "two 1-byte strings, quoted or not"), "num_str": (Q, "number vs string"),
+             "null_num": (T, "null vs number"), "bool_bool": (Q, "two booleans"),
+             "list_list": (Q, "two one-element lists of numbers, any separator/brackets"),
+             "list_num": (T, "one-element list vs number"), "empty_empty": (Q, "two empty lists, any separator/brackets"),
+             "empty_list": (Q, "empty list vs one-element list"), "strlist_strlist": (T, "two one-element lists of strings"),
+             "strlist_numlist": (T, "list of string vs list of number"), "str_null": (T, "string vs null")}
+    hs = [H("c09::c09a_" + k, b, tiers=t, covers=("end", "unequal"), flags=ST) for k, (t, b) in names.items()]
+    return _simple(hs, ["value::Value::{eq, not_equals}", "value::sass_number::SassNumber::eq", "value::number::fuzzy_equals"],
+                   "values of the stated shapes; numbers from 6 magnitudes x 4 units",
+                   "transitivity over fuzzy numbers, colours, maps and map operations (SassMap with symbolic keys did not fit), "
+                   "arglists, index(), duplicate-key check of map literals",
+                   stubs=[EPS_STUB, CONV], pre=[engine_t.dump_units, engine_t.check_epsilon])
+
+
+def _c03():
+    hs = [H("c03::c03a_scopes_2", "every sequence of 2 operations among {enter scope, exit scope, assign x|y (with/without "
+            "!global, semi-global on/off), loop-variable insert, lookup}, 3 values, depth <= 4", flags=ST),
+          H("c03::c03a_scopes_3", "every sequence of 3 such operations", covers=("end", "depth3", "global_seen_from_inner"), flags=ST),
+          H("c03::c03a_scopes_4", "every sequence of 4 such operations", tiers=T, covers=("end", "depth3", "global_seen_from_inner"), flags=ST),
+          H("c16::c03b_precedence_table", "all pairs of the 14 binary operators")]
+    return _simple(hs, ["evaluate::scope::Scopes::{find_var, get_var, insert_var, insert_var_last, enter_new_scope, exit_scope, "
+                        "var_exists, global_var_exists}", "evaluate::env::Environment::{insert_var, get_var}",
+                        "common::BinaryOp::precedence"],
+                   "operation sequences of length 2-4 over two variable names; no modules, no closures",
+                   "@if/@for/@each/@while execution, argument binding, mixins/@content, closures (new_closure), operator "
+                   "evaluation - they live in Visitor methods that cannot be encoded",
+                   stubs=[RS_STUB, FMT_STUB, "interner -> destructor-free linear-search model (hook)"])
+
+
 PROPS["C01"] = _c01()
+PROPS["C03"] = _c03()
+PROPS["C07"] = _c07()
+PROPS["C09"] = _c09()
 PROPS["C13"] = _c13()
 PROPS["C15"] = _c15()
 PROPS["C16"] = _c16()
